@@ -194,6 +194,7 @@ inductive Reply where
   | proposed (index : Nat)
   | notLeader
   | snapshot (ok : Bool)
+  | walFailed                     -- `propose` → Err(StorageError "WAL log persist failed")
   deriving DecidableEq, Repr
 
 /-- what the outside world has been told; the obligations of the property -/
@@ -300,7 +301,7 @@ def step (n : Node) : Event → StepOut
       if logOk n1.log prevIdx prevTerm then
         let r := appendLoop n1.log (mkEntries prevIdx ents)
         let mi := min (prevIdx + ents.length) r.2.length
-        { micros := m1 ++ r.1.map Micro.wal ++ [.ackTerm n1.term, .ackLog (r.2.take mi)],
+        { micros := m1 ++ r.1.map Micro.wal ++ [.ackTerm n1.term, .ackLog (r.2.filter (fun e => decide (e.index ≤ mi)))],
           node := { n1 with log := r.2, role := .follower }, reply := .append n1.term true mi }
       else { micros := m1 ++ [.ackTerm n1.term], node := { n1 with role := .follower },
              reply := .append n1.term false 0 }
@@ -340,6 +341,90 @@ def installSnapshotOld (n : Node) (lastTerm : Nat) (ents : List (Nat × Nat)) : 
   let m1 : List Micro := (preHigher n lastTerm n.role).1
   let n1 : Node := (preHigher n lastTerm n.role).2
   { micros := m1 ++ [.ackTerm n1.term], node := { n1 with log := mkEntries 0 ents }, reply := .snapshot true }
+
+
+/-! ### handlers while the WAL rejects every append
+
+  `RaftWal::append` returns `Err` before writing anything (e.g. `check_space`: less than
+  `min_free_space_bytes` left, or the directory is gone); `persist_term_and_vote` gives up after
+  three attempts.  Every handler then takes its failure branch:
+    start_election, the three step-downs      return without touching memory
+    handle_request_vote                       answers with the OLD term, vote not granted
+    handle_append_entries                     higher term: answers failure with the old term;
+                                              otherwise `append_leader_entries` (below)
+    propose                                   pushes, fails to persist, pops, `Err`
+    install_snapshot                          `Err` before the in-memory switch
+  `append_leader_entries` (code as it is): a new entry is pushed into the in-memory log BEFORE
+  `persist_log_entry`, and on failure the function returns `false` without popping it; on a
+  conflict the result of the `LogTruncate` append is ignored (`let _ =`), the in-memory log is
+  truncated and the new entry pushed, then `persist_log_entry` fails → `false`.  Either way memory now
+  holds an entry the WAL does not.  `appendOneFixed`-style behaviour (persist first, change memory
+  after) is what /verif/proposed/C10-append-entries-persist-first.diff does; it is modelled as
+  `stepFailFixed` for the theorem that the repair is sufficient. -/
+
+/-- one iteration of `append_leader_entries`, every WAL append failing: (keep going?, log) -/
+def appendOneFail (log : List LogEntry) (e : LogEntry) : Bool × List LogEntry :=
+  if e.index > log.length then (false, log ++ [e])
+  else if e.index = 0 then (true, log)
+  else match log[e.index - 1]? with
+    | some old => if old.term ≠ e.term then (false, log.take (e.index - 1) ++ [e]) else (true, log)
+    | none => (true, log)
+
+def appendLoopFail (log : List LogEntry) : List LogEntry → Bool × List LogEntry
+  | [] => (true, log)
+  | e :: es =>
+    let r := appendOneFail log e
+    if r.1 then appendLoopFail r.2 es else (false, r.2)
+
+/-- does `append_leader_entries` need the WAL at all for these entries? (no: all already held) -/
+def appendNeedsWal (log : List LogEntry) (es : List LogEntry) : Bool := !(appendLoopFail log es).1
+
+/-- one handler call while every WAL append fails (code as it is) -/
+def stepFail (n : Node) : Event → StepOut
+  | .startElection => { micros := [], node := n, reply := .none }
+  | .requestVote _ _ _ _ => { micros := [.ackTerm n.term], node := n, reply := .vote n.term false }
+  | .voteResponse _ => { micros := [], node := n, reply := .none }
+  | .preVoteResponse _ _ => { micros := [], node := n, reply := .none }
+  | .becomeLeader => { micros := [], node := { n with role := .leader }, reply := .none }
+  | .appendEntries t _leader prevIdx prevTerm ents =>
+    if t > n.term then { micros := [.ackTerm n.term], node := n, reply := .append n.term false 0 }
+    else if t = n.term then
+      if logOk n.log prevIdx prevTerm then
+        let r := appendLoopFail n.log (mkEntries prevIdx ents)
+        let mi := min (prevIdx + ents.length) r.2.length
+        if r.1 then
+          -- nothing to write: the ordinary success path
+          { micros := [.ackTerm n.term, .ackLog (r.2.filter (fun e => decide (e.index ≤ mi)))],
+            node := { n with log := r.2, role := .follower }, reply := .append n.term true mi }
+        else
+          { micros := [.ackTerm n.term], node := { n with log := r.2, role := .follower },
+            reply := .append n.term false mi }
+      else { micros := [.ackTerm n.term], node := { n with role := .follower }, reply := .append n.term false 0 }
+    else { micros := [.ackTerm n.term], node := n, reply := .append n.term false 0 }
+  | .appendResponse _ => { micros := [], node := n, reply := .none }
+  | .propose _ =>
+    if n.role = .leader then { micros := [], node := n, reply := .walFailed }
+    else { micros := [], node := n, reply := .notLeader }
+  | .installSnapshot _ _ _ => { micros := [], node := n, reply := .snapshot false }
+
+/-- the same with `append_leader_entries` repaired (persist first, then change memory; the
+    `LogTruncate` result checked): a failing call leaves the log alone -/
+def stepFailFixed (n : Node) : Event → StepOut
+  | .appendEntries t _leader prevIdx prevTerm ents =>
+    if t > n.term then { micros := [.ackTerm n.term], node := n, reply := .append n.term false 0 }
+    else if t = n.term then
+      if logOk n.log prevIdx prevTerm then
+        let r := appendLoopFail n.log (mkEntries prevIdx ents)
+        let mi := min (prevIdx + ents.length) n.log.length
+        if r.1 then
+          { micros := [.ackTerm n.term, .ackLog (n.log.filter (fun e => decide (e.index ≤ mi)))],
+            node := { n with role := .follower }, reply := .append n.term true mi }
+        else
+          { micros := [.ackTerm n.term], node := { n with role := .follower },
+            reply := .append n.term false mi }
+      else { micros := [.ackTerm n.term], node := { n with role := .follower }, reply := .append n.term false 0 }
+    else { micros := [.ackTerm n.term], node := n, reply := .append n.term false 0 }
+  | e => stepFail n e
 
 /-! ### obligations (ghost state) and executions with crashes -/
 
@@ -397,5 +482,37 @@ def execAct (σ : Sys) : Act → Sys
 def exec (σ : Sys) (as : List Act) : Sys := as.foldl execAct σ
 
 def initSys (id : Nat) : Sys := { node := { id := id } }
+
+/-! executions in which the WAL may reject appends for a while -/
+
+inductive ActF where
+  | ev (e : Event)                  -- handler runs to completion, WAL working
+  | evFail (e : Event)              -- handler runs to completion while every WAL append fails
+  | crash (e : Event) (k : Nat)     -- as `Act.crash`
+  | crashFail (e : Event) (k : Nat) -- the process dies `k` micro steps into a handler whose appends fail
+  deriving Repr
+
+/-- `fixed` selects `append_leader_entries` as it is (`false`) or repaired (`true`) -/
+def stepM (fixed fail : Bool) (n : Node) (e : Event) : StepOut :=
+  if fail then (if fixed then stepFailFixed n e else stepFail n e) else step n e
+
+def execActF (fixed : Bool) (σ : Sys) : ActF → Sys
+  | .ev e => applyOut σ (stepM fixed false σ.node e)
+  | .evFail e => applyOut σ (stepM fixed true σ.node e)
+  | .crash e k =>
+    let ms := (stepM fixed false σ.node e).micros.take k
+    let d := σ.dur ++ recs ms
+    { dur := d, node := restart σ.node.id (fromEntries d), ghost := microAllG σ.ghost ms }
+  | .crashFail e k =>
+    let ms := (stepM fixed true σ.node e).micros.take k
+    let d := σ.dur ++ recs ms
+    { dur := d, node := restart σ.node.id (fromEntries d), ghost := microAllG σ.ghost ms }
+
+def execF (fixed : Bool) (σ : Sys) (as : List ActF) : Sys := as.foldl (execActF fixed) σ
+
+/-- a failure-free history in the richer alphabet -/
+def ActF.ofAct : Act → ActF
+  | .ev e => .ev e
+  | .crash e k => .crash e k
 
 end Neumann.RaftWal
